@@ -66,3 +66,46 @@ Print Assumptions C09_w_waitgroup_exact.
 Theorem C09_w_stuckb_sound : forall cfg s, stuckb cfg s = true -> stuck cfg s.
 Proof. exact stuckb_sound_proof. Qed.
 Print Assumptions C09_w_stuckb_sound.
+
+(* Termination variant: the measure [mu] (Proofs/WriterC09.v: per call not yet assigned
+   2 + #messages * (2*MaxAttempts + 5); per waiting call 1; per partition writer its live sender,
+   its awaitBatch goroutines, 2*MaxAttempts + 3 per batch not yet sent, the remaining attempts
+   of the batch being sent; 1 while Close waits) strictly decreases on EVERY non-environment
+   step.  Hence between two environment decisions only finitely many steps happen, and with
+   C09_w_close_no_stuck_partial every fair run without the late batchMessages lets Close
+   return.  (Wall-clock bounds are outside the model.) *)
+Theorem C09_w_close_variant :
+  forall cfg ls s l s', run (step cfg) init ls = Some s -> is_env l = false ->
+    step cfg s l = Some s' -> mu cfg s' < mu cfg s.
+Proof. exact C09_w_variant_proof. Qed.
+Print Assumptions C09_w_close_variant.
+
+(* When Close has returned: nothing is pending anywhere (no open or queued batch, no batch
+   being sent, no live sender or timer goroutine), every call has returned, and every message
+   of every accepted call has been handed to the Completion callback — i.e. it was
+   acknowledged or exhausted its attempts (C01_completion_once gives the outcome). *)
+Theorem C09_w_close_post :
+  forall cfg ls s, run (step cfg) init ls = Some s -> s_late s = false -> s_close s = ClReturned ->
+    (forall p pw, nth_error (s_pws s) p = Some pw ->
+       pw_curr pw = None /\ pw_queue pw = [] /\ pw_snd pw = None /\ pw_alive pw = false /\ pw_await pw = []) /\
+    (forall c cl, nth_error (s_calls s) c = Some cl -> returned cl = true) /\
+    (forall c cl m, nth_error (s_calls s) c = Some cl -> rejected cl = false -> In m (c_msgs cl) ->
+       exists ms o, In (ms, o) (s_compl s) /\ In m ms).
+Proof. exact C09_w_close_post_proof. Qed.
+Print Assumptions C09_w_close_post.
+
+(* ---- non-vacuity: Close racing a waiting call and an open batch, without the late Assign:
+   the open batch is flushed by CloseMark, sent, the call returns, the sender exits, Close
+   returns. *)
+Definition ex_cfg : config := mkCfg 5 100 2 false (Some 0%N) (fun e => N.eqb e 7).
+Definition ex_run : list label :=
+  [Call 1 [mkMsg 1 None 30 0] None; Assign 0; CloseMark; Get 0; Attempt 0 (NotApplied 7%N);
+   BackoffDone 0; Attempt 0 AppliedAcked; Finish 0; Timer 0 0; Return 0; SenderExit 0; CloseWaitDone;
+   Call 1 [mkMsg 2 None 30 0] None].
+Example C09_nonvacuous :
+  exists s, run (step ex_cfg) init ex_run = Some s /\ s_late s = false /\ s_close s = ClReturned /\
+            map c_ph (s_calls s) = [CReturned RNil; CReturned (RErr EClosed)] /\ s_wg s = 0.
+Proof.
+  eexists. split; [vm_compute; reflexivity|]. split; [vm_compute; reflexivity|].
+  split; [vm_compute; reflexivity|]. split; vm_compute; reflexivity.
+Qed.
